@@ -16,7 +16,7 @@ macro_rules! opaque {
         impl Clone for $n { #[verifier::external_body] fn clone(&self) -> (r: Self) ensures r == *self { unimplemented!() } }
     )* } }
 }
-opaque!(Transfer, Payload, Disposition, FlowRest, ConnErr, OtherErr);
+opaque!(TransferRest, Payload, Disposition, FlowRest, ConnErr, OtherErr);
 // bytes::Bytes as far as these functions may look at it: its length (R11)
 impl Payload {
     pub uninterp spec fn spec_len(&self) -> nat;
@@ -32,6 +32,8 @@ pub struct InputHandle(pub u32);
 pub struct Handle(pub u32);
 impl Clone for Handle { fn clone(&self) -> (r: Self) ensures r == *self { Handle(self.0) } }
 impl InputHandle { pub fn from(h: Handle) -> (r: Self) ensures r.0 == h.0 { InputHandle(h.0) } }
+/// Transfer: the field the session routes by; the rest is one opaque field (R11)
+pub struct Transfer { pub handle: Handle, pub rest: TransferRest }
 /// a session flow; `handle` is set iff it also carries link flow state
 pub struct Flow { pub handle: Option<Handle>, pub rest: FlowRest }
 impl Clone for Flow { #[verifier::external_body] fn clone(&self) -> (r: Self) ensures r == *self { unimplemented!() } }
@@ -87,7 +89,7 @@ impl LinkRelay {
 }
 pub open spec fn applied_of(r: LinkRelay) -> Seq<LinkFlow> { match r { LinkRelay::Sender { flow_state, .. } => flow_state.applied@, LinkRelay::Receiver { flow_state, .. } => flow_state.applied@ } }
 /// `releasable` (ghost): the session holds back transfers (peer's incoming window was exhausted) although the window it last computed is open
-pub struct SessionS { pub g: Ghost<int>, pub link_by_input_handle: LinkTable, pub link_by_name: NameTable, pub releasable: Ghost<bool>, pub remote_incoming_window: u32, pub remote_incoming_window_exhausted_buffer: ParkedS }
+pub struct SessionS { pub g: Ghost<int>, pub counted: Ghost<nat>, pub link_by_input_handle: LinkTable, pub link_by_name: NameTable, pub releasable: Ghost<bool>, pub remote_incoming_window: u32, pub remote_incoming_window_exhausted_buffer: ParkedS }
 /// the session's queue of held-back transfers, reduced to whether it is empty
 pub struct ParkedS { pub n: Ghost<nat> }
 impl ParkedS {
@@ -142,8 +144,11 @@ impl SessionS {
         ensures !final(self).releasable@, final(self).link_by_input_handle == old(self).link_by_input_handle,
             r is Ok,       // [C07.drain.total] of unit SESSION
     { unimplemented!() }
+    /// Session::on_incoming_transfer (unit SESSION): the frame is COUNTED (next-incoming-id, remote-outgoing-window, need-flow-count: [C07.recv.*]) and routed by its handle
     #[verifier::external_body]
-    pub fn on_incoming_transfer(&mut self, transfer: Transfer, payload: Payload) -> (r: Result<Option<Disposition>, SessionInnerError>) { unimplemented!() }
+    pub fn on_incoming_transfer(&mut self, transfer: Transfer, payload: Payload) -> (r: Result<Option<Disposition>, SessionInnerError>)
+        ensures final(self).counted@ == old(self).counted@ + 1, final(self).link_by_input_handle@.dom() == old(self).link_by_input_handle@.dom(),
+    { unimplemented!() }
     /// Session::on_incoming_detach (unit SESSION, [C15.detach.unattached] / [C13.link.peer-detach-not-fatal])
     #[verifier::external_body]
     pub fn on_incoming_detach(&mut self, detach: Detach) -> (r: Result<(), SessionInnerError>)
@@ -166,6 +171,10 @@ pub fn pending_remove(m: &mut PendingFlows, h: &InputHandle) -> (r: Option<Vec<L
 { unimplemented!() }
 #[verifier::external_body]
 pub struct PendingFlows { m: Vec<u8> }
+impl PendingFlows {
+    #[verifier::external_body]
+    pub fn contains_key(&self, h: &InputHandle) -> (r: bool) ensures r == self@.contains_key(h.0) { unimplemented!() }
+}
 impl View for PendingFlows { type V = Map<u32, Seq<LinkFlow>>; uninterp spec fn view(&self) -> Map<u32, Seq<LinkFlow>>; }
 /// `map.entry(h).or_default().push(f)`
 #[verifier::external_body]
@@ -231,6 +240,7 @@ impl ListenerSession {
 //@@ spec
     ensures
         final(self).pending_link_flows@ == old(self).pending_link_flows@,
+        final(self).session.counted@ == old(self).session.counted@ + 1,      // [C07.listener.every-transfer-frame-counted] the session state the endpoint reports (next-incoming-id, its windows) reflects EVERY transfer frame received: a frame for a handle whose attach still waits to be accepted -- or for no link at all -- is counted like any other before it is set aside; the peer counts it as sent
         r is Err ==> !(r->Err_0 is UnattachedHandle),            // [C15.listener.unattached-not-fatal] a transfer for a handle that is not attached is ignored (nothing is delivered, nothing answered), the session goes on
 //@@ end
 //@@ fn file=fe2o3-amqp/src/acceptor/session.rs impl=`impl endpoint::Session for ListenerSession` name=on_incoming_detach
